@@ -55,6 +55,25 @@ CHECK_DEADLOCK FALSE
          'INVARIANTS TypeOK Iff FirstRuleReported Cap\nPROPERTIES NoQuotaForRejected AdmittedRecorded' if check else '', extra)
 
 
+def reload_cfg(cfgs, maxt, maxops, mut='none', check=True, invs='TypeOK Iff FirstRuleReported OwnWindow WindowTruth SinceSane', extra=''):
+    return """SPECIFICATION Spec
+CONSTANTS
+  Res = {1}
+  RuleCfgs <- %s
+  B = 1
+  GN = 20
+  Batches = {1, 2}
+  Steps <- MCSteps
+  MaxT = %d
+  MaxOps = %d
+  MaxReloads = 1
+  Mut = "%s"
+VIEW view
+%s
+CHECK_DEADLOCK FALSE
+%s""" % (cfgs, maxt, maxops, mut, ('INVARIANTS %s\nPROPERTIES KeptOnReload' % invs) if check else '', extra)
+
+
 def path_cfg(k, mode, ts, w0s, bs, invs='TypeOK Bound NoSpurious Conserved Sequential', extra=''):
     return """SPECIFICATION Spec
 CONSTANTS
@@ -82,9 +101,19 @@ def model_check(c, thorough):
         r = c.model_check('AdmitPath_MC', cfg_text=path_cfg(k, 'qps', 'MCTsQps', '{0, 1, 2}', bs), workers=8, timeout=1500)
         if not r.completed:
             c.inconclusive.append('AdmitPath.tla (qps, K=%d): %s violated' % (k, r.violated))
+    # rule list replaced under traffic: every standalone window is fed by exactly one rule, unchanged rules keep theirs
+    r = c.model_check('FlowReload_MC', cfg_text=reload_cfg('MCRel', 7 if not thorough else 9, 4 if not thorough else 5), workers=8, timeout=1500)
+    if not r.completed:
+        c.inconclusive.append('FlowReload.tla: %s violated - the design model contradicts the property' % r.violated)
     c.cov['exhaustive'] = True
     # vacuity self-test: broken designs must be caught by the same invariants
     caught = []
+    for mut, invs, want in (('sharewin', 'TypeOK Iff FirstRuleReported', ('Iff', 'FirstRuleReported')), ('sharewin', 'OwnWindow', ('OwnWindow',)),
+                            ('allfresh', 'TypeOK', ('KeptOnReload',))):
+        r = c.tlc('FlowReload_MC', cfg_text=reload_cfg('MCRel', 7, 4, mut=mut, invs=invs), workers=4, timeout=600, count=False)
+        if r.violated not in want:
+            raise MachineryError('vacuity self-test: broken reload design Mut=%s was not caught by %s (%s)' % (mut, invs, r.violated or r.error))
+        caught.append('reload/%s->%s' % (mut, r.violated))
     for mut, cfgs, res, want in (('ge', 'MCSingleB1', '{1}', 'Iff'), ('countblocked', 'MCSingleB1', '{1}', None),
                                  ('own', 'MCAssocB1', '{1, 2}', 'Iff')):
         r = c.tlc('FlowQps_MC', cfg_text=mc_cfg(cfgs, res, 1, 6, 3, mut=mut), workers=4, timeout=600, count=False)
@@ -126,6 +155,8 @@ def decorate(hist, tr, unit, nres):
         if o['op'] == 'new':
             rules = [mkrule(r['res'], r['T'][0], r['T'][1], r['I'], r['ref'], unit) for r in o['rules']]
             o = dict(op='new', tr=tr, t=o['t'], unit=unit, nres=nres, rules=rules)
+        elif o['op'] == 'reload':
+            o = dict(op='reload', per=0, rules=[mkrule(r['res'], r['T'][0], r['T'][1], r['I'], r['ref'], unit) for r in o['rules']])
         out.append(o)
     return out
 
@@ -150,6 +181,20 @@ def tlc_scenarios(c, thorough, tr):
             tr += 1
             scns.append(decorate(hist, tr, 500 // b, 2))
         c.log('S2 transition cover %s: %d transitions -> %d maximal scenarios, %d kept' % (cfgs, len(hs), n, len(keep)))
+    # one scenario per transition of a bounded FlowReload instance (a reload between bursts of requests)
+    cfg = reload_cfg('MCRelGen', 6 if not thorough else 7, 4 if not thorough else 5, check=False, extra='ACTION_CONSTRAINT Emit\n')
+    r = c.tlc('FlowReload_MC', cfg_text=cfg, workers=4, timeout=900, count=False)
+    if r.error:
+        raise MachineryError('reload scenario generation failed: %s\n%s' % (r.error, r.out[-1500:]))
+    hs = [x for x in r.json_prints() if any(o['op'] == 'reload' for o in x)]
+    keep = maximal(hs)
+    n = len(keep)
+    if len(keep) > cap // 2:
+        keep = c.rng.sample(keep, cap // 2)
+    for hist in keep:
+        tr += 1
+        scns.append(decorate(hist, tr, 500, 2))
+    c.log('S2 transition cover FlowReload: %d transitions with a reload -> %d maximal scenarios, %d kept' % (len(hs), n, len(keep)))
     cover = len(scns)
     num = 200 if not thorough else 3000
     cfg = mc_cfg('MCSimB1', '{1, 2}', 1, 120, 14, steps='MCStepsLong', check=False, extra='ACTION_CONSTRAINT Emit\n')
